@@ -113,5 +113,29 @@ theorem totalP_congr (P : Prim K) (m : Model K) (N : Nat) (hr : readsBelow m N =
       List.map_congr_left (fun n hn => hdel n hn sm)
     rw [this]
 
+/-- two parameter accessors that agree below `N` give the same constraint terms -/
+theorem ct_go_congr (m : Model K) (N : Nat) (hN : 0 < N) (par par' : Nat → K) (h : ∀ k, k < N → par k = par' k)
+    (ps : List (Paramset K)) (hps : ∀ p ∈ ps, (sliceOf m.slices p.name).2 ≤ N) (start : Nat) :
+    constraintTerms.go m par ps start = constraintTerms.go m par' ps start := by
+  induction ps generalizing start with
+  | nil => rfl
+  | cons p ps ih =>
+    simp only [constraintTerms.go]
+    rw [ih (fun q hq => hps q (by simp [hq]))]
+    congr 1
+    have key : ∀ i, par ((selection m.slices p.name).getD i 0) = par' ((selection m.slices p.name).getD i 0) := by
+      intro i
+      apply h
+      rcases getD_mem_or_default (selection m.slices p.name) i 0 with hm | hm
+      · exact selection_lt m N p.name (hps p (by simp)) _ hm
+      · rw [hm]; exact hN
+    cases p.ptype <;> simp only [key]
+
+theorem constraintTerms_congr (m : Model K) (N : Nat) (hr : constraintReadsBelow m N = true) (par par' : Nat → K)
+    (h : ∀ k, k < N → par k = par' k) : constraintTerms m par = constraintTerms m par' := by
+  unfold constraintReadsBelow at hr
+  simp only [Bool.and_eq_true, decide_eq_true_eq, List.all_eq_true] at hr
+  exact ct_go_congr m N hr.1 par par' h _ hr.2 0
+
 end
 end Pyhf
